@@ -474,6 +474,8 @@ class Check:
             "samples": samples or [{"note": "no cases"}],
             "undecided": self.undecided[:50], "checker_errors": self.errors[:20],
             "known_findings_reported": sorted({h["id"] for h, _ in known_hits}),
+            "known_finding_keys": {i: sorted({f.key for h, f in known_hits if h["id"] == i})[:60]
+                                   for i in sorted({h["id"] for h, _ in known_hits})},
             "encoding_cross_checks_vs_cpython": self.cross_checks,
             "must_fail_mutants": self.mutants,
             "checker_cmd": f"./check {self.prop} --tier {self.tier}",
